@@ -191,6 +191,10 @@ class ProgressivelyTerminalDecider(BaseDecider):
         production_weights = self.grammar.get_weights()
         # alternatives of a Union need not be grammar symbols (e.g. list[int]): they count as weight 1
         weights = [w(alt) * production_weights.get(alt, 1.0) for alt in alternatives]
+        if not any(weights):
+            # the depth heuristic leaves no candidate (e.g. every alternative is already at the maximum depth):
+            # decide by the production weights alone instead of always returning the first alternative
+            weights = [production_weights.get(alt, 1.0) for alt in alternatives]
         return self.random.choice_weighted(alternatives, weights)
 
 
